@@ -1,0 +1,20 @@
+//go:build verif
+// +build verif
+
+package ldb
+
+import (
+	"github.com/syndtr/goleveldb/leveldb"
+
+	"massnet.org/mass-wallet/masswallet/db"
+)
+
+// VerifRawLevelDB returns the goleveldb handle underneath a database opened by this driver
+// (nil for any other db.DB).  Verification harness only: byte-level dumps of the key space and
+// wiping the store between test histories.
+func VerifRawLevelDB(d db.DB) *leveldb.DB {
+	if l, ok := d.(*LevelDB); ok {
+		return l.ldb
+	}
+	return nil
+}
